@@ -16,6 +16,7 @@ pub fn c08(sc: &Scenario, recs: &[CallRecord], stats: &mut Stats) -> Vec<Violati
             hash_key: sc.hash_key ^ 0x9e37_79b9,
             history: vec![HOp::Gen(rec.entropy.clone())],
             faults: vec![],
+            steer: None,
         };
         let fr = exec::run_scenario(&fresh, Trace::Off, false);
         let (a, b) = (&rec.outcome, &fr[0].outcome);
